@@ -10,7 +10,8 @@ from ..histories import replay_history, read_view, apply_step
 from .c01 import KIND
 from . import c04
 
-MUTATORS = {"insert", "remove", "refine", "reverse", "transpose", "flip", "set_ctrlpts", "set_weights", "scale_weights", "translate", "sample_size"}
+MUTATORS = {"insert", "remove", "refine", "reverse", "transpose", "flip", "set_ctrlpts", "set_weights", "scale_weights", "translate", "scale",
+            "sample_size", "sample_size_dir"}
 
 
 def views_of(sh):
@@ -48,6 +49,8 @@ def twin(defn, hist):
     for st in hist:
         if st["a"] == "sample_size":
             t.sample_size = st["n"]
+        elif st["a"] == "sample_size_dir":
+            setattr(t, "sample_size_" + "uvw"[st["d"] - 1], st["n"])
     return t
 
 
@@ -77,7 +80,7 @@ def check_case(ctx, cs, defs):
     last = hist[-1]
     reads_before = sorted({s["v"] for s in hist[:-1] if s["a"] == "read"})
     tg = [kind, "rational" if sh0["rat"] else "nonrational", "mutator=" + last["a"]] + ["read_before=" + v for v in reads_before]
-    small = {"kind": kind, "rat": sh0["rat"], "hist": [{k: v for k, v in s.items() if k in ("a", "v", "prm", "num", "d", "u", "r", "dens", "k", "n")} for s in hist]}
+    small = {"kind": kind, "rat": sh0["rat"], "hist": [{k: v for k, v in s.items() if k in ("a", "v", "prm", "num", "d", "u", "r", "dens", "k", "n", "f")} for s in hist]}
     cls = ("NURBS." if sh0["rat"] else "BSpline.") + kind.capitalize()
     site = "%s.%s" % (cls, last["a"])
     ctx.count(c04.hist_key(cs), sample=small)
@@ -97,7 +100,7 @@ def check_case(ctx, cs, defs):
     if not compare_views(ctx, site, tg, small, obj, twin(exp, hist), views, "after_history"):
         return
     # (2) deep copy independence: mutate the copy, the original must still report the prefix state, and vice versa
-    if last["a"] != "sample_size" and (len(hist) <= 2 or ctx.tier == "thorough"):
+    if last["a"] not in ("sample_size", "sample_size_dir") and (len(hist) <= 2 or ctx.tier == "thorough"):
         try:
             def prefix():
                 o = start(sh0)
